@@ -369,8 +369,18 @@ func solveOne(vc *VC, o *Obligation, idx int, opts SolveOpts) *Result {
 			raw, _, dt := runSolver(Solvers[0], opts.Timeout1, sfile)
 			tot += dt
 			if raw != "unsat" {
-				all = false
-				break
+				// the slice may have dropped a needed fact: the same case over the full script
+				ffile := filepath.Join(opts.Dir, fmt.Sprintf("o%05d.split%d.full.smt2", idx, k))
+				if err := os.WriteFile(ffile, []byte(vc.ScriptOpt(&o2, false, false)), 0o644); err != nil {
+					all = false
+					break
+				}
+				raw2, _, dt2 := runSolver(Solvers[0], opts.Timeout1*2, ffile)
+				tot += dt2
+				if raw2 != "unsat" {
+					all = false
+					break
+				}
 			}
 		}
 		r.TimeS += tot
